@@ -427,3 +427,40 @@ func (e *Exec) bodyAcquires(fn *ssa.Function, blocks map[*ssa.BasicBlock]bool, d
 	}
 	return false
 }
+
+// constCapture: the variable a closure captures is assigned exactly once in the function that declares
+// it (its initialisation, e.g. the spill of a parameter) and is only read everywhere else, including in
+// every closure it is bound into. Nobody can change it after the closure exists, so a closure verified on
+// its own may treat the captured cell as private: calls do not havoc it.
+func constCapture(fv *ssa.FreeVar) bool {
+	a := rootAlloc(fv, 0)
+	if a == nil {
+		return false
+	}
+	refs := a.Referrers()
+	if refs == nil {
+		return false
+	}
+	stores := 0
+	for _, r := range *refs {
+		switch x := r.(type) {
+		case *ssa.DebugRef:
+		case *ssa.UnOp:
+			if x.Op != token.MUL {
+				return false
+			}
+		case *ssa.Store:
+			if x.Addr != a || x.Val == a {
+				return false
+			}
+			stores++
+		case *ssa.MakeClosure:
+			if !bindingsReadOnly(x, a) {
+				return false
+			}
+		default:
+			return false
+		}
+	}
+	return stores <= 1
+}
